@@ -123,6 +123,32 @@ def euler_vars(ctx, rng, idx):
     ctx.close("roundtrip", np.max(np.abs(back[0] - rho) / rho), TOL, "roundtrip/%s/density" % kind, None, cls="roundtrip:" + kind)
     ctx.close("roundtrip", np.max(np.abs(np.asarray(back[1]) - V) / (q + c)), TOL, "roundtrip/%s/velocity" % kind, None, cls="roundtrip:" + kind)
     ctx.close("roundtrip", np.max(np.abs(back[2] - p) / p / cond), TOL, "roundtrip/%s/pressure" % kind, None, cls="roundtrip:" + kind)
+    # mixed scalar / array arguments (a uniform density or pressure written as one number next to per-cell velocities): plain numpy
+    # broadcasting, the result must be that of the same call with full arrays
+    for which in ("density", "pressure", "both"):
+        form = [float, np.float64, np.array][int(rng.integers(3))]
+        r0, p0 = rho[int(rng.integers(n))], p[int(rng.integers(n))]
+        mixed = [form(r0) if which in ("density", "both") else rho.copy(), np.array(V, copy=True), form(p0) if which in ("pressure", "both") else p.copy()]
+        full = [np.full(n, r0) if which in ("density", "both") else rho.copy(), np.array(V, copy=True), np.full(n, p0) if which in ("pressure", "both") else p.copy()]
+        try:
+            cm = model.prim2cons(mixed)
+        except (AttributeError, TypeError, ValueError) as e:      # refused loudly: not this property's business
+            ctx.skip("mixed-scalar-array:refused(%s)" % type(e).__name__)
+            continue
+        cf = model.prim2cons(full)
+        errm = max(float(np.max(np.abs(np.broadcast_to(np.asarray(a_, float), np.shape(b_)) - b_) / (np.abs(b_) + np.max(np.abs(b_)) * 1e-3 + 1e-300))) for a_, b_ in zip(cm, cf))
+        ctx.close("mixed-scalar-array", errm, 1e-13, "roundtrip/%s/prim2cons-with-scalar-%s-differs-from-full-arrays" % (kind, which), {"scalar given as": form.__name__}, cls="roundtrip:" + kind)
+        # and back: conservative data with a scalar density (uniform density field)
+        if which == "density":
+            qm = [form(r0), np.array(cf[1], copy=True), np.array(cf[2], copy=True)]
+            try:
+                bm = model.cons2prim(qm)
+            except (AttributeError, TypeError, ValueError) as e:
+                ctx.skip("mixed-scalar-array:refused(%s)" % type(e).__name__)
+                continue
+            bf = model.cons2prim([np.array(x, copy=True) for x in cf])
+            errb = max(float(np.max(np.abs(np.broadcast_to(np.asarray(a_, float), np.shape(b_)) - b_) / (np.abs(b_) + np.max(np.abs(b_)) * 1e-3 + 1e-300))) for a_, b_ in zip(bm, bf))
+            ctx.close("mixed-scalar-array", errb, 1e-12 * float(np.max(cond)), "roundtrip/%s/cons2prim-with-scalar-density-differs-from-full-arrays" % kind, {"scalar given as": form.__name__}, cls="roundtrip:" + kind)
     f = ffield.fdata(model, mesh, cons)
     names = list(model.list_var())
     for name in names:
